@@ -187,6 +187,9 @@ def different(spec, world: World, actual):
 
 def build_test(world: World, tbs, t):
     """Return (yaml item, should_pass, details) or None when nothing decidable."""
+    from ..ctx import CTX
+
+    CTX.begin()
     with warnings.catch_warnings():
         warnings.simplefilter("ignore")
         builder = SimulationBuilder()
@@ -354,6 +357,9 @@ def run_file(tbs, items, path):
     """One run_tests call; verdicts by position from the junit report."""
     from openfisca_core.tools.test_runner import run_tests
 
+    from ..ctx import CTX
+
+    CTX.begin()
     with open(path, "w") as f:
         yaml.safe_dump(items, f, default_flow_style=False, sort_keys=False, allow_unicode=True)
     junit = path + ".xml"
@@ -394,6 +400,12 @@ def run_yaml(scn) -> Result:
     os.makedirs(SCRATCH, exist_ok=True)
     try:
         current.ENT = world.ent
+        # one scenario = one pytest session of a fresh process: the runner's
+        # process-wide system cache (keyed by id(baseline), S6) starts empty, and
+        # the baseline stays alive for the whole session so its id cannot be reused
+        from openfisca_core.tools import test_runner
+
+        test_runner._tax_benefit_system_cache.clear()
         base = world.make_system()       # served to the runner
         ref_base = world.make_system()   # the harness's own
         built = []
